@@ -12,7 +12,7 @@ from ..cfg import cfg_of, const_eval
 from ..effects import (PY, NULLABLE, SWALLOWS, MUTATES, RC_FAIL, external_effects)
 from ..bridge import binding_table
 from .common import (short, inst, live_funcs, calls_in, callee_func, member_path, enclosing_map,
-                     ancestors, thrown_type, thrown_qual, local_inits, strip_casts, relation)
+                     ancestors, thrown_type, thrown_qual, local_inits, strip_casts, relation, unnegate)
 from .equality import node_fields, tokens, _base_is, NODE_REC
 
 
@@ -374,7 +374,18 @@ def i5(ctx):
         if f.body is None:
             continue
         derefs = []
+        finds = {}
+        for vd in f.body.find('VarDecl'):
+            if vd.name and vd.kids and vd.kids[-1] is not None and \
+                    any(x.kind == 'CXXMemberCallExpr' and x.callee_name() == 'find' for x in vd.kids[-1].walk()):
+                finds[vd.name] = vd
         for c in f.body.find('CXXOperatorCallExpr'):
+            # the result of a container lookup: `it->second` / `*it` is defined only for a hit
+            if c.callee_name() in ('operator->', 'operator*') and len(c.kids) == 2:
+                v = strip_casts(c.kids[1])
+                if v is not None and v.kind == 'DeclRefExpr' and member_path(v) in finds:
+                    derefs.append((c, member_path(v)))
+                    continue
             if c.callee_name() == 'operator*' and len(c.kids) == 2:
                 v = strip_casts(c.kids[1])
                 vt = ((v.type or '') + ' ' + ((v.ref or {}).get('type') or '')) if v is not None else ''
@@ -411,9 +422,30 @@ def i5(ctx):
                     continue
                 if not cfg.dominates(cn.idx, rn):
                     continue
-                tr = cfg.forward_reachable([w for (w, lab) in cfg.succ[cn.idx] if lab is True])
-                fl = cfg.forward_reachable([w for (w, lab) in cfg.succ[cn.idx] if lab is False])
-                if (rn in tr) != (rn in fl):
+                # the outcome on which the iterator IS the end iterator must not lead to the dereference
+                op = a.op if a.kind == 'BinaryOperator' else a.callee_name()[-2:]
+                at_end = (op == '==')
+                bad = cfg.forward_reachable([w for (w, lab) in cfg.succ[cn.idx] if lab is at_end])
+                good = cfg.forward_reachable([w for (w, lab) in cfg.succ[cn.idx] if lab is (not at_end)])
+                if rn in good and rn not in bad:
+                    ok = True
+            # ... or the dereference sits in the arm of a `?:` that the comparison selects
+            for co in ancestors(c, parent):
+                if co.kind != 'ConditionalOperator' or len(co.kids) != 3:
+                    continue
+                a, pos = unnegate(co.kids[0])
+                if a is None:
+                    continue
+                is_cmp = (a.kind == 'BinaryOperator' and a.op in ('==', '!=')) or \
+                    (a.kind == 'CXXOperatorCallExpr' and a.callee_name() in ('operator==', 'operator!='))
+                t = a.text(5)
+                if not is_cmp or not re.search(r'\b%s\b' % re.escape(v), t) or \
+                        not re.search(r'\b(c?r?end)\(', t):
+                    continue
+                op = a.op if a.kind == 'BinaryOperator' else a.callee_name()[-2:]
+                at_end_when_true = (op == '==') if pos else (op != '==')
+                arm = co.kids[2] if at_end_when_true else co.kids[1]
+                if arm is not None and any(x is c for x in arm.walk()):
                     ok = True
             owner = f if not f.is_lambda else prog.funcs.get(f.parent, f)
             ctx.check('%s/*%s' % (short(owner), 'iterator'), ok,
